@@ -1,3 +1,251 @@
+// instr: build-time schedule perturbation (DESIGN.md 3.4).
+//
+// Applied to a scratch copy of the repository, never to /repo itself: before every statement of
+// every block / case / comm clause body in the non-test files of the chosen packages it inserts
+// verifrt.P(<site>), writes package verifrt into the copy and a site table (id -> file:line:func).
+// Go goroutines are pre-emptible at any statement boundary, so a yield or a short sleep there is a
+// legal schedule; the pass never reorders or removes code.
 package main
 
-func main() {}
+import (
+	"bytes"
+	"encoding/json"
+	"flag"
+	"fmt"
+	"go/ast"
+	"go/format"
+	"go/parser"
+	"go/token"
+	"os"
+	"path/filepath"
+	"strconv"
+	"strings"
+)
+
+const modulePath = "github.com/enbility/ship-go"
+
+type site struct {
+	ID   int    `json:"id"`
+	File string `json:"file"`
+	Line int    `json:"line"`
+	Func string `json:"func"`
+}
+
+var sites []site
+
+func main() {
+	root := flag.String("root", "", "root of the scratch copy")
+	pkgs := flag.String("pkgs", "hub,ship,ws,mdns,api", "package directories to instrument")
+	out := flag.String("sites", "", "site table output (json)")
+	flag.Parse()
+	if *root == "" {
+		fmt.Fprintln(os.Stderr, "instr: -root required")
+		os.Exit(2)
+	}
+	for _, p := range strings.Split(*pkgs, ",") {
+		dir := filepath.Join(*root, p)
+		ents, err := os.ReadDir(dir)
+		if err != nil {
+			fmt.Fprintln(os.Stderr, "instr:", err)
+			os.Exit(1)
+		}
+		for _, e := range ents {
+			n := e.Name()
+			if e.IsDir() || !strings.HasSuffix(n, ".go") || strings.HasSuffix(n, "_test.go") || n == "verif_hooks.go" {
+				continue
+			}
+			if err := instrumentFile(filepath.Join(dir, n), filepath.Join(p, n)); err != nil {
+				fmt.Fprintln(os.Stderr, "instr:", n, err)
+				os.Exit(1)
+			}
+		}
+	}
+	rtDir := filepath.Join(*root, "verifrt")
+	if err := os.MkdirAll(rtDir, 0o755); err != nil {
+		fmt.Fprintln(os.Stderr, err)
+		os.Exit(1)
+	}
+	src := strings.ReplaceAll(runtimeSrc, "NSITES", strconv.Itoa(len(sites)+1))
+	if err := os.WriteFile(filepath.Join(rtDir, "verifrt.go"), []byte(src), 0o644); err != nil {
+		fmt.Fprintln(os.Stderr, err)
+		os.Exit(1)
+	}
+	if *out != "" {
+		b, _ := json.Marshal(sites)
+		_ = os.WriteFile(*out, b, 0o644)
+	}
+	fmt.Printf("instr: %d sites\n", len(sites))
+}
+
+func instrumentFile(path, rel string) error {
+	fset := token.NewFileSet()
+	// comments are dropped: go/ast keeps them by position and would weave them into the inserted calls;
+	// the instrumented packages carry no build constraints or compiler directives (checked by the driver)
+	f, err := parser.ParseFile(fset, path, nil, 0)
+	if err != nil {
+		return err
+	}
+	changed := false
+	curFunc := ""
+	mk := func(pos token.Pos) ast.Stmt {
+		id := len(sites) + 1
+		sites = append(sites, site{ID: id, File: rel, Line: fset.Position(pos).Line, Func: curFunc})
+		changed = true
+		return &ast.ExprStmt{X: &ast.CallExpr{
+			Fun:  &ast.SelectorExpr{X: ast.NewIdent("verifrt"), Sel: ast.NewIdent("P")},
+			Args: []ast.Expr{&ast.BasicLit{Kind: token.INT, Value: strconv.Itoa(id)}},
+		}}
+	}
+	weave := func(list []ast.Stmt) []ast.Stmt {
+		if len(list) == 0 {
+			return list
+		}
+		// the body of a switch/select is a block of clauses: instrument inside the clauses only
+		switch list[0].(type) {
+		case *ast.CaseClause, *ast.CommClause:
+			return list
+		}
+		out := make([]ast.Stmt, 0, 2*len(list))
+		for _, s := range list {
+			out = append(out, mk(s.Pos()), s)
+		}
+		return out
+	}
+	for _, d := range f.Decls {
+		fd, ok := d.(*ast.FuncDecl)
+		if !ok || fd.Body == nil {
+			continue
+		}
+		curFunc = fd.Name.Name
+		if fd.Recv != nil && len(fd.Recv.List) > 0 {
+			var b bytes.Buffer
+			_ = format.Node(&b, fset, fd.Recv.List[0].Type)
+			curFunc = "(" + b.String() + ")." + fd.Name.Name
+		}
+		ast.Inspect(fd.Body, func(n ast.Node) bool {
+			switch x := n.(type) {
+			case *ast.BlockStmt:
+				x.List = weave(x.List)
+			case *ast.CaseClause:
+				x.Body = weave(x.Body)
+			case *ast.CommClause:
+				x.Body = weave(x.Body)
+			}
+			return true
+		})
+	}
+	if !changed {
+		return nil
+	}
+	// add the import
+	imp := &ast.ImportSpec{Path: &ast.BasicLit{Kind: token.STRING, Value: strconv.Quote(modulePath + "/verifrt")}}
+	added := false
+	for _, d := range f.Decls {
+		if gd, ok := d.(*ast.GenDecl); ok && gd.Tok == token.IMPORT {
+			gd.Specs = append(gd.Specs, imp)
+			if !gd.Lparen.IsValid() {
+				gd.Lparen = gd.Pos()
+				gd.Rparen = gd.End()
+			}
+			added = true
+			break
+		}
+	}
+	if !added {
+		f.Decls = append([]ast.Decl{&ast.GenDecl{Tok: token.IMPORT, Specs: []ast.Spec{imp}}}, f.Decls...)
+	}
+	var buf bytes.Buffer
+	if err := format.Node(&buf, fset, f); err != nil {
+		return err
+	}
+	return os.WriteFile(path, buf.Bytes(), 0o644)
+}
+
+const runtimeSrc = `// Package verifrt is written by /verif/tools/instr into a scratch copy of the repository.
+package verifrt
+
+import (
+	"os"
+	"runtime"
+	"strconv"
+	"time"
+)
+
+// Perturbation state. Plain variables on purpose: P must not add happens-before edges that could
+// hide a data race from the race detector (no atomics, locks or channels), hence go:norace.
+var (
+	on    bool
+	mode  int    // 1 = yield only (bubbles), 2 = yield or short sleep (real time)
+	seed  uint64
+	prob  uint64 // a hot site acts with probability prob/1024
+	hot   [NSITES]bool
+	hits  [NSITES]uint32
+	state uint64
+)
+
+func init() {
+	if os.Getenv("VERIF_PERTURB") == "" {
+		return
+	}
+	on = true
+	mode = 1
+	if os.Getenv("VERIF_PERTURB") == "sleep" {
+		mode = 2
+	}
+	s, _ := strconv.ParseUint(os.Getenv("VERIF_PERTURB_SEED"), 10, 64)
+	seed = s*0x9e3779b97f4a7c15 + 0x1234567
+	prob = 96
+	if v, err := strconv.ParseUint(os.Getenv("VERIF_PERTURB_PROB"), 10, 64); err == nil {
+		prob = v
+	}
+	// a seed-derived third of the sites is hot
+	x := seed
+	for i := range hot {
+		x ^= x << 13
+		x ^= x >> 7
+		x ^= x << 17
+		hot[i] = x%3 == 0
+	}
+	state = seed | 1
+}
+
+// P is called before every statement of the instrumented packages.
+//
+//go:norace
+func P(id int) {
+	if !on {
+		return
+	}
+	hits[id]++
+	if !hot[id] {
+		return
+	}
+	state ^= state << 13
+	state ^= state >> 7
+	state ^= state << 17
+	r := state
+	if r%1024 >= prob {
+		return
+	}
+	if mode == 2 && (r>>10)%4 == 0 {
+		time.Sleep(time.Duration(50+(r>>12)%1950) * time.Microsecond)
+		return
+	}
+	for k := uint64(0); k <= (r>>12)%3; k++ {
+		runtime.Gosched()
+	}
+}
+
+// Hits returns how many distinct sites were reached (lossy counters).
+//
+//go:norace
+func Hits() (distinct int, total uint64) {
+	for _, h := range hits {
+		if h > 0 {
+			distinct++
+			total += uint64(h)
+		}
+	}
+	return
+}
+`
